@@ -65,8 +65,13 @@ def emit(rnd, f, shape, extras, bad):
         ops.append({'op': 'form.op', 'f': f, 'k': 'emplace', 'type': ctype, 'def': d})
         n += 1
     for _ in range(rnd.randint(0, 4)):
-        ops.append({'op': 'form.op', 'f': f, 'k': rnd.choice(['setterm', 'setterm', 'setdef', 'setconv']), 'uid': {'idx': rnd.randrange(n)},
-                    'text': fg.fill(rnd, rnd.choice(TERMS + ['uses $[%d]']), n, dangling=0)})
+        kk = rnd.choice(['setterm', 'setterm', 'setdef', 'setconv'])
+        target = rnd.randrange(n)
+        # term texts refer only to constituents BEFORE their own: a term that (directly or through a cycle) contains two references
+        # to itself doubles its resolved text with every refresh, which is outside this property and only stalls the workload
+        span_t = target if kk == 'setterm' else n
+        tmpl = rnd.choice(TERMS + ['uses $[%d]']) if span_t > 0 else rnd.choice(['термин', 'человек', ''])
+        ops.append({'op': 'form.op', 'f': f, 'k': kk, 'uid': {'idx': target}, 'text': fg.fill(rnd, tmpl, span_t, dangling=0)})
     if rnd.random() < 0.3:
         ops.append({'op': 'form.op', 'f': f, 'k': 'setalias', 'uid': {'idx': rnd.randrange(n)}, 'alias': rnd.choice(['X7', 'D7', 'X11', 'D11', 'S7', 'F7']), 'subst': True})
     if rnd.random() < 0.2:
@@ -145,7 +150,16 @@ def inplace_case(rnd, hist_id):
                 i = rnd.randrange(n)
                 j = (i + na) % max(n, 1) if (n > na and rnd.random() < 0.6) else rnd.randrange(n)
                 pairs.append([{'idx': i}, {'idx': j}] + rnd.choice([[], [], ['keepDel'], ['createNew', 'имя']]))
-            ops.append({'op': 'form.op', 'f': 'a', 'k': 'isequatable', 'pairs': pairs, 'snap': True})
+            r2 = rnd.random()
+            if r2 < 0.25:
+                # an equation that is (most likely) refused - unlike kinds / typifications, possibly after an acceptable first pair -
+                # immediately followed by a direct Equate of the real pairs (no IsEquatable in between)
+                refused = [[{'idx': rnd.randrange(n)}, {'idx': rnd.randrange(n)}]] if rnd.random() < 0.5 else []
+                refused.append([{'idx': 0}, {'idx': rnd.randrange(max(1, n - 1)) + (1 if n > 1 else 0)}])
+                refused.append([{'idx': rnd.randrange(n)}, {'idx': rnd.randrange(n)}])
+                ops.append({'op': 'form.op', 'f': 'a', 'k': rnd.choice(['isequatable', 'equate']), 'pairs': refused, 'snap': True})
+            elif r2 < 0.8:
+                ops.append({'op': 'form.op', 'f': 'a', 'k': 'isequatable', 'pairs': pairs, 'snap': True})
             ops.append({'op': 'form.op', 'f': 'a', 'k': 'equate', 'pairs': pairs, 'snap': True})
     return core.case(ops, kind='inplace')
 
@@ -281,6 +295,7 @@ def judge_inplace(res, cs, cr):
     bsnap = None
     nontrivial = False
     strip = lambda s: {k: v for k, v in s.items() if k not in ('corehash', 'fullhash')}
+    verdict = None
     for idx, (op, ev) in enumerate(zip(cs['ops'], cr.events)):
         if op['op'] == 'form.snap' and op['f'] == 'b':
             bsnap = ev['snap']
@@ -294,6 +309,8 @@ def judge_inplace(res, cs, cr):
         if before is None:
             continue
         res.cover('op:' + k)
+        if k not in ('isequatable', 'equate'):
+            verdict = None
         bad = None
         inv = p09.invariants(snap)
         if inv:
@@ -302,7 +319,7 @@ def judge_inplace(res, cs, cr):
         if k == 'isequatable':
             if strip(snap) != strip(before):
                 bad = bad or ('isequatable-modified', 'IsEquatable changed the schema')
-            verdict = ev['ret']
+            verdict = (ev['args'], ev['ret'])
         elif k == 'merge':
             tr = {a: b for a, b in ev['ret']}
             if any(str(v) in before['items'] for v in tr.values()):
@@ -327,6 +344,8 @@ def judge_inplace(res, cs, cr):
                 nontrivial = True
         elif k == 'equate':
             pairs = ev['args']
+            # the verdict of an IsEquatable call counts only for the Equate of the same table right after it
+            verdict = verdict[1] if (verdict is not None and verdict[0] == pairs) else None
             if ev['ret'] is None:
                 res.count('refused')
                 if strip(snap) != strip(before):
@@ -349,6 +368,7 @@ def judge_inplace(res, cs, cr):
                     bad = check_images(res, 'equate', [('schema', before, full)], snap, cs)
                 nontrivial = True
                 res.cover('accepted-nonempty-table')
+            verdict = None
         if bad:
             ctx = f"before {[(i['alias'], i['def']) for i in before['items'].values()]}; after {[(i['alias'], i['def']) for i in snap['items'].values()]}; op {k} args {ev.get('args')} ret {ev.get('ret')}"
             res.violation(f'{PROP}/inplace/{bad[0]}', f'{bad[1]}; {ctx}', {'ops': cs['ops'][:idx + 1], 'meta': {'kind': 'inplace'}})
